@@ -124,11 +124,13 @@ def relevant_actions(cfg: Dict) -> List[int]:
 
 
 # ------------------------------------------------------------------------------------------------ probe and buckets
-def probe(cfg: Dict, seed: int) -> Tuple[envrig.Play, List[Tuple[str, int, int]]]:
-    """One undisturbed full-length episode (blue idle).  Returns the play and the time buckets [(label, lo, hi)), hi exclusive."""
+def probe(cfg: Dict, seed: int, length: Optional[int] = None) -> Tuple[envrig.Play, List[Tuple[str, int, int]]]:
+    """One undisturbed full-length episode (blue idle).  Returns the play and the time buckets [(label, lo, hi)), hi exclusive.
+    `length` shortens the episode (only used for scenarios whose every step costs seconds)."""
     max_len = int((cfg.get("game") or {}).get("max_episode_length", 256))
     idle = do_nothing_action(cfg)
-    p = envrig.run_ops(cfg, [["reset", seed, None]] + [idle] * max_len)
+    n = min(max_len, length) if length else max_len
+    p = envrig.run_ops(cfg, [["reset", seed, None]] + [idle] * n)
     return p, buckets_of(cfg, p, max_len)
 
 
